@@ -198,7 +198,8 @@ def corrupt(r, data, how):
         root[k] = r.choice([0, 1, 2, 3, -1, 2 ** 70, b'', b'x' * 19, b'x' * 21, b'y' * 47, b'y' * 49, [], [1], {}, {b'a': 1},
                             b'ping', b'store', b'nope', [b'k' * 48], [b'k' * 47], [{}], [[]],
                             [7] * 20, [7] * 48, [b'a'] * 20, [b'a'] * 48, {i: i for i in range(20)}, {i: i for i in range(48)},
-                            [[1]] * 20, [300] * 48])
+                            [[1]] * 20, [300] * 48,
+                            b'm' * 1000, b'm' * 1400, b'm' * 2000, b'\xc3\xa9' * 900, b'x' * 20000, b'y' * 60000])
     elif x < 0.7:
         return data + _rb(r, r.randint(1, 20))           # trailing bytes
     elif x < 0.8:
